@@ -528,6 +528,52 @@ func runCodecNarrow(c *Ctx, r *RuleRun) {
 				guarded := rangeGuarded(cv.X, cv)
 				r.Check(guarded, fn, fmt.Sprintf("%s(%s)", to.Name(), from.Name()), pos, "dominated by a range check of the converted value",
 					fmt.Sprintf("a %s is converted to %s without a range check: a length above %d is silently truncated and the decoder reads garbage", from.Name(), to.Name(), 1<<(8*uint(sizes.Sizeof(to)))-1))
+				if !guarded {
+					continue
+				}
+				// the out-of-range branch reports an error: it does not just skip the field
+				isErrMark := func(i ssa.Instruction) bool {
+					switch x := i.(type) {
+					case *ssa.Store:
+						return isErrorType(x.Val.Type()) && !isNilConst(x.Val)
+					case *ssa.Return:
+						ei := errResultIndex(f.Signature)
+						return ei >= 0 && ei < len(x.Results) && !isNilConst(retOperand(x, ei))
+					case *ssa.Panic:
+						return true
+					}
+					return false
+				}
+				for _, ref := range *cv.X.Referrers() {
+					bo, ok := ref.(*ssa.BinOp)
+					if !ok {
+						continue
+					}
+					if _, isK := constInt(bo.X); !isK {
+						if _, isK2 := constInt(bo.Y); !isK2 {
+							continue
+						}
+					}
+					for _, r2 := range *bo.Referrers() {
+						iff, ok := r2.(*ssa.If)
+						if !ok {
+							continue
+						}
+						blk := iff.Block()
+						for si, sb := range blk.Succs {
+							if sb == cv.Block() || reaches(sb, cv.Block()) {
+								continue // the in-range side
+							}
+							q := PathQuery{P: p, Fn: f, Starts: []ssa.Instruction{iff}, EdgeOK: func(bb *ssa.BasicBlock, i int) bool { return bb != blk || i == si }, Avoid: isErrMark, Target: isReturn}
+							w := q.FindPath()
+							if w == nil {
+								r.Hold(fn, "out-of-range length is an error", p.Pos(instrPos(iff)), "the branch on which the value does not fit records or returns an error")
+							} else {
+								r.Viol(fn, "out-of-range length is an error", p.Pos(instrPos(iff)), "on the branch where the length does not fit the function returns without recording an error: the field is silently left out and the decoder reads garbage", p.describePath(w)...)
+							}
+						}
+					}
+				}
 			}
 		}
 	}
